@@ -341,6 +341,47 @@ def excel_requireds(repo):
     return out, caught, facts
 
 
+def filename_rules(repo):
+    """whitelist / replace list and the shape of remove_disallowed_filename_chars + the file-name branch of store_to_excel"""
+    import string as _string
+    src = open(os.path.join(repo, 'DHLLDV_viewer/store_pump_excel.py')).read()
+    tree = ast.parse(src)
+
+    def ev(node):
+        if isinstance(node, ast.Constant):
+            return node.value
+        if isinstance(node, ast.List):
+            return [ev(e) for e in node.elts]
+        if isinstance(node, ast.JoinedStr):
+            return ''.join(ev(v) for v in node.values)
+        if isinstance(node, ast.FormattedValue):
+            return ev(node.value)
+        if isinstance(node, ast.Attribute) and isinstance(node.value, ast.Name) and node.value.id == 'string':
+            return getattr(_string, node.attr)
+        raise SystemExit('effects: cannot evaluate ' + ast.unparse(node))
+    vals = {}
+    for n in tree.body:
+        if isinstance(n, ast.Assign) and isinstance(n.targets[0], ast.Name) and n.targets[0].id in ('replace_filename_chars', 'valid_filename_chars'):
+            vals[n.targets[0].id] = ev(n.value)
+    fn = next(n for n in tree.body if isinstance(n, ast.FunctionDef) and n.name == 'remove_disallowed_filename_chars')
+    body = [ast.unparse(x) for x in fn.body if not (isinstance(x, ast.Expr) and isinstance(x.value, ast.Constant))]
+    expect = ["if extension is None:\n    extension = ''",
+              'cleaned_filename = filename_candidate',
+              "for c in replace_filename_chars:\n    cleaned_filename = cleaned_filename.replace(c, '_')",
+              "cleaned_filename = ''.join((c for c in cleaned_filename if c in valid_filename_chars))",
+              'cleaned_filename += extension',
+              'return cleaned_filename']
+    st = next(n for n in tree.body if isinstance(n, ast.FunctionDef) and n.name == 'store_to_excel')
+    st_src = ast.unparse(st)
+    name_branch = ("if fname is None:" in st_src
+                   and "fname = os.path.join(path, remove_disallowed_filename_chars(basename, '.xlsx'))" in st_src
+                   and "if '.xlsx' in fname and fname[-5:] == '.xlsx':" in st_src
+                   and "fname = os.path.join(path, remove_disallowed_filename_chars(fname[:-5], '.xlsx'))" in st_src
+                   and "fname = os.path.join(path, remove_disallowed_filename_chars(fname, '.xlsx'))" in st_src
+                   and 'wb.save(fname)' in st_src)
+    return vals.get('replace_filename_chars'), vals.get('valid_filename_chars'), body == expect, name_branch
+
+
 def lean_str_list(xs):
     return '[' + ', '.join(json.dumps(x) for x in xs) + ']'
 
@@ -380,6 +421,11 @@ def main(repo, outdir):
     lines.append(f'def excelTableLookupCatches : List String := {lean_str_list(caught["table"])}')
     for k, v in facts.items():
         lines.append(f'def excel_{k} : Bool := {"true" if v else "false"}')
+    repl, valid, shape_ok, branch_ok = filename_rules(repo)
+    lines.append(f'def filenameReplace : List String := {lean_str_list(repl or [])}')
+    lines.append(f'def filenameValid : String := {json.dumps(valid or "")}')
+    lines.append(f'def filename_sanitiser_shape_recognised : Bool := {"true" if shape_ok else "false"}')
+    lines.append(f'def filename_branch_recognised : Bool := {"true" if branch_ok else "false"}')
     lines.append('')
     lines.append('end Effects')
     text = '\n'.join(lines) + '\n'
